@@ -4,6 +4,12 @@
   The lexer layer of C17b/C17c (`L tg …`, now parameterised by `tagStart`) lexes the print tag at ANY offset
   (`C17c.print_tag_run`); the text runs around it are lexed by the cut theorems of C15b/C15c (`lexText_text_open`,
   `lexText_text_eof`).  Text pieces are C15c's: empty, or `textOK` (ASCII, no braces, no comment opener).
+
+  * `print_cmd_in_body_roundtrip`: one command between two text runs.
+  * `body_source_spec_cmds`: the sibling of C15c's `body_source_spec` for bodies of text runs and ARBITRARY print commands,
+    any number of them (`CBody`): `lexAll` = the exact items (`itemsOfC`, END offsets), `parseSource` = the RawText / Print
+    nodes in order, print nodes modulo positions (`NodesMatch`).  Steps: `seg_run_cmd`, `lex_cbody`; `loop_text`,
+    `loop_print`, `loop_eof`, `parse_cbody`.
 -/
 import SoyVerif.Props.C17c
 import SoyVerif.Props.C15c
@@ -154,6 +160,9 @@ open SoyVerif.Props.C15c (textNodes toList_append)
 /-- the token of a text piece (none for the empty and the dropped ones) -/
 def textTk (t : Bytes) : List Tk := if 0 < t.length ∧ dropped t = false then [⟨.tText, t⟩] else []
 
+theorem textTk_len (t : Bytes) : (textTk t).length ≤ 1 := by
+  unfold textTk; split <;> simp
+
 theorem textItem_tk (t : Bytes) (e : Nat) : (textItem t e).map Item.tk = textTk t := by
   unfold textItem textTk
   split <;> rfl
@@ -206,11 +215,13 @@ theorem textOrTag_text1 (ef fuel : Nat) (untl : List ItemType) (hu : untl.contai
 theorem loop_text (ef : Nat) (untl : List ItemType) (hu : untl.contains .tText = false) (t : Bytes) (nx : Tk)
     (hnx : nx.typ ≠ .tText) (hnc : nx.typ ≠ .tComment) (s : List Tk) (F : Nat) (hF : 4 ≤ F) (lpos : Option Nat)
     (nodes : NodeList) (st : FState) (hst : At st.p (textTk t ++ nx :: s)) :
-    ∃ F' lpos' nodes' p' pos, F ≤ F' + 1 ∧ F' ≤ F ∧
+    ∃ F' lpos' nodes' p' pos, F ≤ F' + (textTk t).length ∧ F' ≤ F ∧
       itemListLoop pf ef F untl lpos nodes st = itemListLoop pf ef F' untl lpos' nodes' { st with p := p' } ∧
       nodes'.toList = nodes.toList ++ textNodes t pos ∧ At p' (nx :: s) := by
   by_cases hd : 0 < t.length ∧ dropped t = false
-  · simp only [textTk, hd, and_self, if_true, List.cons_append, List.nil_append] at hst
+  · have hlen1 : (textTk t).length = 1 := by simp [textTk, hd]
+    rw [hlen1]
+    simp only [textTk, hd, and_self, if_true, List.cons_append, List.nil_append] at hst
     obtain ⟨g, rfl⟩ : ∃ g, F = g + 3 := ⟨F - 3, by omega⟩
     obtain ⟨ti, p1, hn1, hty, hv, hj1⟩ := fnext_at hst
     have hty' : ti.typ = .tText := hty
@@ -336,6 +347,8 @@ theorem print_cmd_in_body_roundtrip (t1 t2 : Bytes) (h1 : t1 = [] ∨ textOK t1)
     [.tEOF] (by decide) t1 ⟨.tLeftDelim, [123]⟩ (by decide) (by decide) _
     (FileParser.fuelFor (bodyItems ff t1 t2 arg dirs).length) (by simp [FileParser.fuelFor]) none .nil
     { p := initState (bodyItems ff t1 t2 arg dirs) } hst0
+  have htl1 := textTk_len t1
+  have htl2 := textTk_len t2
   obtain ⟨g, rfl⟩ : ∃ g, F1 = g + 3 := ⟨F1 - 3, by simp [FileParser.fuelFor] at hF1a; omega⟩
   have hg : 2 * (bodyItems ff t1 t2 arg dirs).length + 2 ≤ g := by simp [FileParser.fuelFor] at hF1a; omega
   -- the tag
@@ -354,6 +367,292 @@ theorem print_cmd_in_body_roundtrip (t1 t2 : Bytes) (h1 : t1 = [] ∨ textOK t1)
   simp only [StateT.run]
   rw [hr1, hr2, hr3, hr4]
   simp only [hn3, toList_append, hn1, NodeList.toList, List.nil_append]
+
+end
+
+/-! # bodies: text runs and ARBITRARY print commands, any number of them (sibling of C15c's `body_source_spec`) -/
+
+/-- a piece of a body: a stretch of text, or a print command -/
+inductive BPiece where
+  | text (t : Bytes)
+  | cmd (arg : Expr) (dirs : List Directive)
+
+abbrev CBody := List BPiece
+
+def BPiece.isText : BPiece → Bool
+  | .text _ => true
+  | .cmd _ _ => false
+
+section
+variable (ff : UInt64 → Bytes)
+
+/-- the source text of a body: the text pieces as they are, the print commands as `PrintNode.String()` writes them -/
+def srcOfC : CBody → Bytes
+  | [] => []
+  | .text t :: r => t ++ srcOfC r
+  | .cmd a d :: r => printPrint ff a d ++ srcOfC r
+
+/-- well-formed: text pieces are C15c's `textOK` and never adjacent; print commands are `CmdOk` -/
+def WFL : CBody → Prop
+  | [] => True
+  | .text t :: r => textOK t ∧ (∀ p ∈ r.head?, p.isText = false) ∧ WFL r
+  | .cmd a d :: r => CmdOk ff a d ∧ WFL r
+
+/-- the items `lex` sends for a body that begins at byte `q` (exact END offsets) -/
+def itemsOfC : Nat → CBody → List Item
+  | q, [] => [⟨.tEOF, q, []⟩]
+  | q, .text t :: r => textItem t (q + t.length) ++ itemsOfC (q + t.length) r
+  | q, .cmd a d :: r => tagItems ff q a d ++ itemsOfC (q + 1 + (spell (piecesBody ff a d)).length + 1) r
+
+/-- … position-free -/
+def tksOfC : CBody → List Tk
+  | [] => [⟨.tEOF, []⟩]
+  | .text t :: r => textTk t ++ tksOfC r
+  | .cmd a d :: r => ⟨.tLeftDelim, [123]⟩ :: (unsp (piecesBody ff a d) ++ tRD :: tksOfC r)
+
+theorem itemsOfC_tk : ∀ (b : CBody) (q : Nat), (itemsOfC ff q b).map Item.tk = tksOfC ff b
+  | [], _ => rfl
+  | .text t :: r, q => by simp [itemsOfC, tksOfC, textItem_tk, itemsOfC_tk r]
+  | .cmd a d :: r, q => by simp [itemsOfC, tksOfC, tagItems, emitT_tk, itemsOfC_tk r, Item.tk, tRD]
+
+theorem printPrint_length (a : Expr) (d : List Directive) :
+    (printPrint ff a d).length = 1 + (spell (piecesBody ff a d)).length + 1 := by
+  rw [spell_body]; simp; omega
+
+end
+
+section
+variable (ff : UInt64 → Bytes) (LT : LexTableOK)
+include LT
+
+/-- a text run `t` (possibly empty) and a print command behind it, anywhere in the input, from any lexer record in
+    `lexText`: `m` state functions later the machine is back in `lexText` behind the tag -/
+theorem seg_run_cmd {inp : Array UInt8} {q : Nat} (t : Bytes) (ht : t = [] ∨ textOK t) (arg : Expr) (dirs : List Directive)
+    (h : CmdOk ff arg dirs) (post : Bytes) (hin : InpAt inp q (t ++ (printPrint ff arg dirs ++ post)))
+    (w : Int) (dd : Bool) (ts : Int) (le : Item) (its : Array Item) :
+    ∃ m, m ≤ 2 * (printPrint ff arg dirs).length + 5 ∧ ∀ f, ∃ (w' : Int) (le' : Item) (its' : Array Item),
+      run (f + m) .text (Lexer.mk inp q q w dd ts le its) =
+        run f .text (Lexer.mk inp ((q + t.length + 1 + (spell (piecesBody ff arg dirs)).length + 1 : Nat) : Int)
+          ((q + t.length + 1 + (spell (piecesBody ff arg dirs)).length + 1 : Nat) : Int) w' false ((q + t.length : Nat) : Int) le' its') ∧
+      its'.toList = its.toList ++ textItem t (q + t.length) ++ tagItems ff (q + t.length) arg dirs := by
+  obtain ⟨c, s, hB, hc, hc1, hc2, hc3⟩ := body_first_byte ff LT arg dirs h
+  have hIq : InpAt inp (q + t.length) (printPrint ff arg dirs ++ post) := inpAt_append hin
+  have hIq' : InpAt inp (q + t.length) (123 :: c :: (s ++ 125 :: post)) := by
+    have := hIq; rw [spell_body, hB] at this; simpa using this
+  have hlenP := printPrint_length ff arg dirs
+  obtain ⟨hq0, hb0⟩ := byteAt_of_inpAt hIq'
+  obtain ⟨hq1, hb1⟩ := byteAt_of_inpAt (inpAt_tail hIq')
+  have hH1 : Holds inp q t := holds_of_inpAt hin
+  obtain ⟨w1, dd1, ts1, le1, its1, hlx, hits1⟩ := C15c.lexText_text_open inp q t.length w dd ts le its
+    (by omega) (C15c.text_bytes hH1 ht (Or.inr (by rw [hb0]; decide))) (by rw [hb0]; rfl)
+  have hld := lexLeftDelim_any inp (q + t.length) w1 dd1 ts1 le1 its1 c.toNat (by omega) (by rw [hb0]; rfl) hb1
+    (by have : c.toNat < 128 := hc; exact this)
+    (by intro e; apply hc1; apply UInt8.toNat_inj.mp; simpa using e)
+  have hex : (inp.extract (q + t.length) (q + t.length + 1)).toList = [123] :=
+    inpAt_extract (v := [123]) (s := c :: (s ++ 125 :: post)) hIq'
+  rw [hex] at hld
+  have hadj := adj_body ff LT arg dirs h (125 :: post) (closer_rbrace post)
+  have hchain := chain_body ff arg dirs
+  have hin1 : InpAt inp (q + t.length + 1) (spell (piecesBody ff arg dirs) ++ 125 :: post) := by
+    have := inpAt_tail hIq'; rw [hB]; simpa using this
+  have hin1' : InpAt inp (q + t.length + 1) (c :: (s ++ 125 :: post)) := inpAt_tail hIq'
+  have hinq : InpAt inp (q + t.length + 1 + (spell (piecesBody ff arg dirs)).length) (125 :: post) := inpAt_append hin1
+  have hlen := adj_length _ _ hadj
+  obtain ⟨k, hk, hrun⟩ := lex_pieces_tail (tg := ((q + t.length : Nat) : Int)) LT (inp := inp) (125 :: post) (piecesBody ff arg dirs)
+    (q + t.length + 1) ⟨.tLeftDelim, q + t.length + 1, [123]⟩ (its1.push ⟨.tLeftDelim, q + t.length + 1, [123]⟩) hin1 hadj hchain
+  refine ⟨k + 5, by omega, fun f => ?_⟩
+  obtain ⟨w', le', its', hr1, hr2⟩ := hrun 1 (f + 2)
+  refine ⟨1, ⟨.tRightDelim, q + t.length + 1 + (spell (piecesBody ff arg dirs)).length + 1, [125]⟩,
+    its'.push ⟨.tRightDelim, q + t.length + 1 + (spell (piecesBody ff arg dirs)).length + 1, [125]⟩, ?_, ?_⟩
+  · rw [show f + (k + 5) = ((((f + 2 + k) + 1) + 1) + 1) by omega,
+      C15c.run_succ (show step .text _ = _ from hlx), C15c.run_succ (show step .leftDelim _ = _ from hld)]
+    have e1 : Lexer.mk inp ((q + t.length + 1 : Nat) : Int) ((q + t.length + 1 : Nat) : Int) 1 false ((q + t.length : Nat) : Int)
+        ⟨.tLeftDelim, q + t.length + 1, [123]⟩ (its1.push ⟨.tLeftDelim, q + t.length + 1, [123]⟩) =
+        L ((q + t.length : Nat) : Int) inp (q + t.length + 1) (q + t.length + 1) 1 ⟨.tLeftDelim, q + t.length + 1, [123]⟩
+          (its1.push ⟨.tLeftDelim, q + t.length + 1, [123]⟩) := rfl
+    rw [e1, run_step (step_beginTag hin1' hc hc2 hc3 1 _ _), hr1, run_step (step_rbrace hinq w' le' its'),
+      run_step (step_rightDelim hinq le' its')]
+    all_goals rfl
+  · simp only [Array.toList_push, hr2, hits1, C15c.textItems_holds hH1]
+    simp [tagItems]
+
+/-- **lexer.**  The machine on a well-formed body that stands at `q`, from any lexer record in `lexText` -/
+theorem lex_cbody : ∀ (b : CBody), WFL ff b → ∀ (inp : Array UInt8) (q : Nat) (w : Int) (dd : Bool) (ts : Int) (le : Item)
+    (its : Array Item) (fuel : Nat), InpAt inp q (srcOfC ff b) → 7 * (srcOfC ff b).length + 1 ≤ fuel →
+    run fuel .text (Lexer.mk inp q q w dd ts le its) = .items (its.toList ++ itemsOfC ff q b)
+  | [], _, inp, q, w, dd, ts, le, its, fuel, hin, hf => by
+    obtain ⟨f, rfl⟩ : ∃ f, fuel = f + 1 := ⟨fuel - 1, by omega⟩
+    have hsz := inpAt_len hin
+    simp only [srcOfC, List.length_nil] at hsz
+    obtain ⟨lf, h1, h2⟩ := C15c.lexText_text_eof inp q 0 w dd ts le its hsz (fun i hi => absurd hi (by omega))
+    rw [C15c.run_end (show step .text _ = _ from h1), h2, C15c.textItems_nat]
+    simp [itemsOfC]
+  | .cmd a d :: r, hwf, inp, q, w, dd, ts, le, its, fuel, hin, hf => by
+    have hin' : InpAt inp q ([] ++ (printPrint ff a d ++ srcOfC ff r)) := hin
+    obtain ⟨m, hm, hrun⟩ := seg_run_cmd ff LT [] (Or.inl rfl) a d hwf.1 (srcOfC ff r) hin' w dd ts le its
+    have hlenP := printPrint_length ff a d
+    simp only [srcOfC, List.length_append] at hf
+    obtain ⟨f, rfl⟩ : ∃ f, fuel = f + m := ⟨fuel - m, by omega⟩
+    obtain ⟨w', le', its', hr, hits⟩ := hrun f
+    simp only [List.length_nil, Nat.add_zero] at hr hits
+    have hnext : InpAt inp (q + 1 + (spell (piecesBody ff a d)).length + 1) (srcOfC ff r) := by
+      have := inpAt_append (a := printPrint ff a d) hin; rw [hlenP] at this; simpa [Nat.add_assoc] using this
+    rw [hr, lex_cbody r hwf.2 inp _ w' false _ le' its' f hnext (by omega), hits]
+    simp [itemsOfC, textItem]
+  | [.text t], hwf, inp, q, w, dd, ts, le, its, fuel, hin, hf => by
+    obtain ⟨f, rfl⟩ : ∃ f, fuel = f + 1 := ⟨fuel - 1, by omega⟩
+    have hin' : InpAt inp q (t ++ []) := by simpa [srcOfC] using hin
+    have hsz : q + t.length = inp.size := by have := inpAt_len hin'; simpa using this
+    have hH : Holds inp q t := holds_of_inpAt hin'
+    have hb0 := C15c.byteAt_beyond (inp := inp) (i := q + t.length) (by omega)
+    obtain ⟨lf, h1, h2⟩ := C15c.lexText_text_eof inp q t.length w dd ts le its hsz
+      (C15c.text_bytes hH (Or.inr hwf.1) (Or.inr (by rw [hb0]; decide)))
+    rw [C15c.run_end (show step .text _ = _ from h1), h2, C15c.textItems_holds hH]
+    simp [itemsOfC]
+  | .text t :: .cmd a d :: r, hwf, inp, q, w, dd, ts, le, its, fuel, hin, hf => by
+    have hin' : InpAt inp q (t ++ (printPrint ff a d ++ srcOfC ff r)) := hin
+    obtain ⟨m, hm, hrun⟩ := seg_run_cmd ff LT t (Or.inr hwf.1) a d hwf.2.2.1 (srcOfC ff r) hin' w dd ts le its
+    have hlenP := printPrint_length ff a d
+    simp only [srcOfC, List.length_append] at hf
+    obtain ⟨f, rfl⟩ : ∃ f, fuel = f + m := ⟨fuel - m, by omega⟩
+    obtain ⟨w', le', its', hr, hits⟩ := hrun f
+    have hnext : InpAt inp (q + t.length + 1 + (spell (piecesBody ff a d)).length + 1) (srcOfC ff r) := by
+      have := inpAt_append (a := printPrint ff a d) (inpAt_append hin'); rw [hlenP] at this; simpa [Nat.add_assoc] using this
+    rw [hr, lex_cbody r hwf.2.2.2 inp _ w' false _ le' its' f hnext (by omega), hits]
+    simp [itemsOfC]
+  | .text _ :: .text t2 :: _, hwf, _, _, _, _, _, _, _, _, _, _ => by
+    have := hwf.2.1 (.text t2) (by simp)
+    simp [BPiece.isText] at this
+
+/-- **lexer.**  The items `lex` sends for the source of a well-formed body -/
+theorem lexAll_cbody (b : CBody) (h : WFL ff b) : lexAll (srcOfC ff b) false = .items (itemsOfC ff 0 b) := by
+  unfold lexAll Lex.fuelFor
+  simp only [Bool.false_eq_true, if_false]
+  have := lex_cbody ff LT b h (srcOfC ff b).toArray 0 0 false 0 Item.zero #[] (7 * (srcOfC ff b).length + 8)
+    (inpAt_zero _) (by omega)
+  simpa [initLexer] using this
+
+end
+
+/-! ## the parser on the items of a body -/
+
+section
+open SoyVerif.Model.FileParser (FState Node NodeList itemListLoop parseFile parseSource)
+open SoyVerif.Props.C15c (textNodes toList_append)
+variable (ff : UInt64 → Bytes) (pf : Bytes → Option UInt64)
+
+/-- every print command of the body is canonical (what the expression parser returns) -/
+def CanonB : CBody → Prop
+  | [] => True
+  | .text _ :: r => CanonB r
+  | .cmd a d :: r => CmdCanon ff pf a d ∧ CanonB r
+
+/-- the node list of a body, MODULO POSITIONS: per text piece the RawText node of its normalised text (none if the lexer
+    drops the piece or the text normalises to nothing), per print command its print node -/
+def NodesMatch : List Node → CBody → Prop
+  | nl, [] => nl = []
+  | nl, .text t :: r => ∃ p rest, nl = textNodes t p ++ rest ∧ NodesMatch rest r
+  | nl, .cmd a d :: r => ∃ pos e' ds' rest, nl = Node.print pos e' ds' :: rest ∧ erase e' = erase a ∧
+      ds'.map eraseDir = d.map eraseDir ∧ NodesMatch rest r
+
+/-- the fuel side conditions of every print command of the body -/
+def FuelB (ef G : Nat) : CBody → Prop
+  | [] => True
+  | .text _ :: r => FuelB ef G r
+  | .cmd a d :: r => (ExprFuel ff ef a d ∧ (∀ x ∈ d, x.args.length + d.length + 1 < G) ∧ d.length < G) ∧ FuelB ef G r
+
+theorem tks_head (r : CBody) (h : ∀ p ∈ r.head?, p.isText = false) :
+    ∃ nx s, tksOfC ff r = nx :: s ∧ nx.typ ≠ .tText ∧ nx.typ ≠ .tComment := by
+  match r, h with
+  | [], _ => exact ⟨_, _, rfl, by simp, by simp⟩
+  | .cmd a d :: r, _ => exact ⟨_, _, rfl, by simp, by simp⟩
+  | .text t :: r, h => have := h (.text t) (by simp); simp [BPiece.isText] at this
+
+variable (T : TableOK)
+include T
+
+/-- **parser.**  `itemList(itemEOF)` on the tokens of a well-formed body -/
+theorem parse_cbody (ef G : Nat) : ∀ (b : CBody), WFL ff b → CanonB ff pf b → FuelB ff ef G b →
+    ∀ (F : Nat) (lpos : Option Nat) (nodes : NodeList) (st : FState), At st.p (tksOfC ff b) → G + (tksOfC ff b).length + 3 ≤ F →
+    ∃ lp nl st' tail, itemListLoop pf ef F [.tEOF] lpos nodes st = .ok (.list lp nl, st') ∧
+      nl.toList = nodes.toList ++ tail ∧ NodesMatch tail b
+  | [], _, _, _, F, lpos, nodes, st, hst, hF => by
+    obtain ⟨g, rfl⟩ : ∃ g, F = g + 3 := ⟨F - 3, by simp [tksOfC] at hF; omega⟩
+    obtain ⟨lp, st', hr⟩ := loop_eof pf ef g lpos nodes [] st hst
+    exact ⟨lp, nodes, st', [], hr, by simp, rfl⟩
+  | .text t :: r, hwf, hcan, hfu, F, lpos, nodes, st, hst, hF => by
+    obtain ⟨nx, s, hnx, h1, h2⟩ := tks_head ff r hwf.2.1
+    have hst' : At st.p (textTk t ++ nx :: s) := by rw [← hnx]; exact hst
+    have hl1 : 1 ≤ (tksOfC ff r).length := by rw [hnx]; simp
+    have hF' : G + ((textTk t).length + (tksOfC ff r).length) + 3 ≤ F := by
+      simpa only [tksOfC, List.length_append] using hF
+    obtain ⟨F', lp1, n1, q1, pos1, hFa, hFb, hr1, hn1, ha1⟩ := loop_text pf ef [.tEOF] (by decide) t nx h1 h2 s F
+      (by omega) lpos nodes st hst'
+    rw [← hnx] at ha1
+    obtain ⟨lp, nl, st', tail, hr, hnl, hm⟩ := parse_cbody ef G r hwf.2.2 hcan hfu F' lp1 n1 { st with p := q1 } ha1
+      (by omega)
+    refine ⟨lp, nl, st', textNodes t pos1 ++ tail, by rw [hr1]; exact hr, by rw [hnl, hn1]; simp, pos1, tail, rfl, hm⟩
+  | .cmd a d :: r, hwf, hcan, hfu, F, lpos, nodes, st, hst, hF => by
+    simp only [tksOfC, List.length_cons, List.length_append] at hF
+    obtain ⟨g, rfl⟩ : ∃ g, F = g + 3 := ⟨F - 3, by omega⟩
+    have hg : G ≤ g := by omega
+    obtain ⟨lp2, pos, e', ds', q2, hr2, he, hd, ha2⟩ := loop_print ff pf T a d hcan.1 ef g hfu.1.1
+      (fun x hx => by have := hfu.1.2.1 x hx; omega) (by have := hfu.1.2.2; omega) [.tEOF] (by decide) (by decide)
+      lpos nodes (tksOfC ff r) st hst
+    obtain ⟨lp, nl, st', tail, hr, hnl, hm⟩ := parse_cbody ef G r hwf.2 hcan.2 hfu.2 (g + 2) lp2 _ { st with p := q2 } ha2
+      (by omega)
+    refine ⟨lp, nl, st', Node.print pos e' ds' :: tail, by rw [hr2]; exact hr, ?_, pos, e', ds', tail, rfl, he, hd, hm⟩
+    rw [hnl, toList_append]
+    simp [NodeList.toList]
+
+omit T in
+/-- every print command's tokens are among the tokens of the body: the fuel of `parse.SoyFile` suffices -/
+theorem fuelB_of_len : ∀ (b : CBody) (n : Nat), (tksOfC ff b).length ≤ n → FuelB ff (8 * n + 64) (2 * n + 2) b
+  | [], _, _ => trivial
+  | .text t :: r, n, h => fuelB_of_len r n (by simp [tksOfC] at h; omega)
+  | .cmd a d :: r, n, h => by
+    simp only [tksOfC, List.length_cons, List.length_append] at h
+    obtain ⟨f1, f2, f3⟩ := fuel_ok ff a d n (by omega)
+    exact ⟨⟨⟨by have := f1.1; omega, fun x hx y hy => by have := f1.2 x hx y hy; omega⟩, f2, f3⟩,
+      fuelB_of_len r n (by omega)⟩
+
+end
+
+section
+open SoyVerif.Model.FileParser (Node NodeList parseFile parseSource)
+variable (ff : UInt64 → Bytes) (pf : Bytes → Option UInt64) (LT : LexTableOK) (T : TableOK)
+include LT T
+
+/-- **`body_source_spec_cmds`** — C15c's `body_source_spec` with ARBITRARY print commands.  For every well-formed body
+    `b` (text pieces — C15c's `textOK`, no two adjacent — and print commands `{expr|dir:args…}` that are `CmdOk` and
+    `CmdCanon`, any number of them), `parse.SoyFile` on the source text `srcOfC ff b` (the commands as
+    `PrintNode.String()` writes them):
+
+    * the lexer sends exactly `itemsOfC ff 0 b` — one Text item per text piece that is not dropped, LeftDelim, the
+      printed tokens and RightDelim per command, EOF — every item at its exact END offset;
+    * the parser returns, in source order, `RawText (joinLines t false false)` for every text piece that is not dropped
+      and does not normalise to nothing, and for every command its print node — the expression and every directive with
+      its name and arguments, modulo positions (`NodesMatch`). -/
+theorem body_source_spec_cmds (b : CBody) (hw : WFL ff b) (hc : CanonB ff pf b) :
+    lexAll (srcOfC ff b) false = .items (itemsOfC ff 0 b) ∧
+      ∃ nl, parseSource pf (srcOfC ff b) = .ok nl ∧ NodesMatch nl b := by
+  have hl := lexAll_cbody ff LT b hw
+  refine ⟨hl, ?_⟩
+  have hlen : (tksOfC ff b).length = (itemsOfC ff 0 b).length := by rw [← itemsOfC_tk ff b 0]; simp
+  have hfu := fuelB_of_len ff b (itemsOfC ff 0 b).length (by omega)
+  have hst0 := at_init (itemsOfC ff 0 b)
+  rw [itemsOfC_tk] at hst0
+  obtain ⟨lp, nl, st', tail, hr, hnl, hm⟩ := parse_cbody ff pf T (8 * (itemsOfC ff 0 b).length + 64)
+    (2 * (itemsOfC ff 0 b).length + 2) b hw hc hfu (8 * (itemsOfC ff 0 b).length + 64) none .nil
+    { p := initState (itemsOfC ff 0 b) } hst0 (by omega)
+  refine ⟨tail, ?_, hm⟩
+  unfold parseSource
+  rw [hl]
+  simp only
+  unfold parseFile
+  simp only [StateT.run, FileParser.fuelFor, FileParser.exprFuel, Parser.fuelFor]
+  rw [hr]
+  simp only [hnl, NodeList.toList, List.nil_append]
 
 end
 
